@@ -24,6 +24,8 @@ for d in sorted(os.listdir(os.path.join(V, "seeded"))):
             vs.append("%s: %s%s" % (p, v[0], (" (" + v[1] + ")") if v[1] else ""))
     site = (m.get("site") or "").replace("|", "/")
     needs = re.sub(r"\s+", " ", (m.get("needs") or ""))[:180].replace("|", "/")
+    if m.get("superseded_by"):
+        vs.append("same change as %s (this hunk no longer applies)" % m["superseded_by"])
     rows.append("| %s | %s | %s | %s | %s |" % (d, m["property"], site[:90], needs, "; ".join(vs) or "not run"))
 out = ["| seed | property | site | needs | verdict of `./check` (first failed obligations) |", "|---|---|---|---|---|"] + rows
 caught = sum(1 for r in rows if ": caught" in r)
